@@ -117,6 +117,20 @@ class Sym:
     def __hash__(self): return hash(('sym', self.name))
 
 
+def _assert_ids(cfg):
+    """ids of every expression node that is (part of) a condition one of whose outcomes goes straight to a noreturn call"""
+    ids = getattr(cfg, '_assert_ids', None)
+    if ids is None:
+        ids = set()
+        for B in cfg.blocks.values():
+            if B.cond is None: continue
+            dead = [s_ for s_ in B.succs if s_ is not None and cfg.blocks[s_].noreturn]
+            if len(dead) == 1 and len([s_ for s_ in B.succs if s_ is not None]) == 2:
+                for x in B.cond.walk(): ids.add(x.id)
+        cfg._assert_ids = ids
+    return ids
+
+
 class Path:
     """result of one walk"""
     def __init__(self):
@@ -306,7 +320,10 @@ class Exec:
                     choice = self.dom.decide(self, B.cond, v, st, fr); how = 'oracle'
                 targets = []
                 if choice is None:
-                    st.unknown_atoms.append(B.cond)
+                    # assert(c) under -UNDEBUG is a branch whose other arm goes straight to a noreturn call: the condition is an assumption
+                    # the code states itself, not an atom the rule has to understand
+                    if B.cond.id in _assert_ids(cfg): st.asserts.append(B.cond)
+                    else: st.unknown_atoms.append(B.cond)
                     targets = [(True, succs[0]), (False, succs[1])]; how = 'fork'
                 else:
                     targets = [(choice, succs[0] if choice else succs[1])]
@@ -471,6 +488,14 @@ class Exec:
         if k == 'return':
             s = n.n('sub')
             fr.ret = self._value(s, st, fr) if s is not None else None
+            # `return p;` of a named smart-pointer local moves from it (implicit move / copy elision): ownership leaves the local
+            r0 = s
+            while r0 is not None and (r0.k in ('cast', 'paren', 'materialize', 'bindtemp') or (r0.k == 'construct' and len([a for a in r0.ns('args') if a is not None]) == 1)):
+                r0 = r0.n('sub') if r0.k != 'construct' else [a for a in r0.ns('args') if a is not None][0]
+            if r0 is not None and r0.k == 'ref' and r0.dk == 'local' and (r0.type or '').replace('const ', '').startswith(('std::unique_ptr', 'unique_ptr')):
+                st.events.append(('moved-from', n, r0.name))
+                held = self.read(self.loc_of(r0, st, fr), st, r0) if self.loc_of(r0, st, fr) is not None else None
+                if held is not None and not isinstance(fr.ret, (Sym, Lin)): fr.ret = held
             st.events.append(('return', n, fr.ret))
             return None   # control continues to the exit block (destructors follow)
         if k == 'throw':
